@@ -101,7 +101,7 @@ Definition ex_env : renv := [(bs "x/o", bs "o")].
 Example C11_example_text :
   match type_lit ex_pick ex_parse (bs "t") (fun _ => true) true true (view_of ex_g) ex_env with
   | Ok (a, e') =>
-      print a = bs "struct {E error" ++ [nl] ++ bs "L ao.List[bo.Item] `json:""l""`" ++ [nl] ++ bs "}"
+      print (fun s => s) a = bs "struct {E error" ++ [nl] ++ bs "L ao.List[bo.Item] `json:""l""`" ++ [nl] ++ bs "}"
       /\ e' = [(bs "x/o", bs "o"); (bs "b/o", bs "bo"); (bs "a/o", bs "ao")]
       /\ resolve e' (bs "t") a = Some (canon ex_g)
   | _ => False
